@@ -18,6 +18,7 @@ import (
 
 // Enc encodes one function under contract (with everything inlined into it).
 type Enc struct {
+	logOnly map[ssa.Instruction]bool
 	eng  *Engine
 	s    *Script
 	fn   *ssa.Function
